@@ -181,6 +181,17 @@ func interactions(idx int) []interCase {
 			"always": {"FROM_FILE": "file", "OVER": "file", "REF": "proj"},
 		}})
 	}
+	// D: a file listed twice with another one in between: entries apply in order, the last one last
+	{
+		n := names[0]
+		for vi, form := range []string{"[a.env, b.env, a.env]", "[a.env, b.env, ./a.env]", "[{path: a.env}, {path: b.env}, {path: a.env}]"} {
+			c := ld.Case{Files: map[string]string{"a.env": "X=from-a\nONLY_A=1\n", "b.env": "X=from-b\nONLY_B=1\n"}, ComposeFiles: []string{"compose.yaml"}}
+			c.Files["compose.yaml"] = fmt.Sprintf("services:\n  %s:\n    image: img\n    env_file: %s\n", n, form)
+			out = append(out, interCase{Kind: fmt.Sprintf("env-file-listed-twice-%d", vi), Case: c, Want: map[string]map[string]string{
+				n: {"X": "from-a", "ONLY_A": "1", "ONLY_B": "1"},
+			}})
+		}
+	}
 	return out
 }
 
